@@ -80,7 +80,8 @@ def plan(tier, seed):
                  'node_reference_formulas', 'comment_formulas',
                  'refused_formulas_in_between',
                  'managers_with_dynamic_reordering',
-                 'formulas_with_reordering_due'],
+                 'formulas_with_reordering_due',
+                 'order_changes_between_formulas'],
         assumptions=[
             'vf/formula.py reads the grammar as documented in doc.md '
             '(precedence list, left associativity, binders extend right)',
@@ -301,6 +302,26 @@ def _random(ctx, spec, rng, names, order, _b):
                 ctx.counters['refused_formulas_in_between'] += 1
             else:
                 ctx.counters['damaged_formula_accepted'] += 1
+        if len(names) > 1 and rng.random() < 0.08:
+            # the order is changed between formulas (to a given order,
+            # to adjacent pairs, or by one swap), with whatever earlier
+            # formulas left in the manager's caches
+            tgt = names[:]
+            rng.shuffle(tgt)
+            how = rng.randrange(3)
+            if how == 0:
+                lv = {v: i for i, v in enumerate(tgt)}
+                if m.auto:
+                    m.bdd.reorder(lv)
+                else:
+                    _b.reorder(m.raw, lv)
+            elif how == 1:
+                _b.reorder_to_pairs(m.raw, {tgt[0]: tgt[1]})
+            else:
+                i = rng.randrange(len(names) - 1)
+                m.raw.swap(i, i + 1)
+            m.order = tuple(sorted(m.raw.vars, key=m.raw.vars.get))
+            ctx.counters['order_changes_between_formulas'] += 1
         s = formula.gen(rng, names, depth, m.nodes)
         if m.auto and k % 5 == 0 and m.bdd.configure()['reordering']:
             # a reordering is due within the next two new nodes
